@@ -45,10 +45,11 @@ InitTarget(arg, exists) ==
   IN [path |-> path, code |-> IF exists THEN 101 ELSE 0, overwritten |-> FALSE]
 
 Pairs == IF MaxArgs >= 2
-         THEN {[k |-> "argv", argv |-> <<s, t>>] : s \in {u \in Strs(PairLen) \ {<<>>} : u[1] \in PairFirst}, t \in Strs(PairLen) \ {<<>>}}
+         \* an argument may be the empty string (it is still an argument)
+         THEN {[k |-> "argv", argv |-> <<s, t>>] : s \in {u \in Strs(PairLen) : IF u = <<>> THEN 1 \in PairFirst ELSE u[1] \in PairFirst}, t \in Strs(PairLen)}
          ELSE {}
 Cfgs == IF PairsOnly THEN Pairs ELSE
-        {[k |-> "argv", argv |-> <<s>>] : s \in Strs(MaxLen) \ {<<>>}}
+        {[k |-> "argv", argv |-> <<s>>] : s \in Strs(MaxLen)}
         \cup Pairs
         \cup {[k |-> "quote", v |-> s] : s \in Strs(MaxLen) \ {<<>>}}
         \cup {[k |-> "split", s |-> <<1, EqIdx>> \o v] : v \in Strs(MaxLen)}
@@ -66,7 +67,8 @@ Spec == Init /\ [][Next]_<<cfg, exp>>
 RECURSIVE S2(_)
 S2(s) == IF s = <<>> THEN "" ELSE ToString(Head(s)) \o (IF Len(s) > 1 THEN "." ELSE "") \o S2(Tail(s))
 RECURSIVE A2(_)
-A2(a) == IF a = <<>> THEN "" ELSE S2(Head(a)) \o (IF Len(a) > 1 THEN "/" ELSE "") \o A2(Tail(a))
+S2E(s) == IF s = <<>> THEN "e" ELSE S2(s)      \* "e": the empty argument
+A2(a) == IF a = <<>> THEN "" ELSE S2E(Head(a)) \o (IF Len(a) > 1 THEN "/" ELSE "") \o A2(Tail(a))
 Line == CASE cfg.k = "argv"  -> "CASE|argv|" \o A2(cfg.argv) \o "|" \o A2(exp.argv)
           [] cfg.k = "quote" -> "CASE|quote|" \o S2(cfg.v) \o "|" \o A2(exp.argv)
           [] cfg.k = "split" -> "CASE|split|" \o S2(cfg.s) \o "|" \o S2(exp.name) \o "/" \o S2(exp.value)
